@@ -12,13 +12,14 @@ import (
 
 // smallWorld draws a world small enough for every event of a run to be a
 // crash point.
-func smallWorld(r *Rng, base string, maxPkgs, maxDecls int) (*ModuleSpec, []string, []proto.GenScript) {
+func smallWorld(r *Rng, base string, minPkgs, maxPkgs, maxDecls int) (*ModuleSpec, []string, []proto.GenScript) {
 	names := Pick(r, genNamePool)
 	if len(names) > 2 {
 		names = names[:2]
 	}
 	cfg := DrawSpecConfig(r, names, base)
-	cfg.MaxPkgs = r.Range(1, maxPkgs)
+	cfg.MinPkgs = minPkgs
+	cfg.MaxPkgs = r.Range(minPkgs, maxPkgs)
 	cfg.MaxDecls = r.Range(1, maxDecls)
 	cfg.PPkgTags = 0.8 // make sure something is generated
 	cfg.PDeclTags = 0.8
@@ -67,7 +68,12 @@ type failurePoint struct {
 func SimC02(c *CheckCtx, i int, r *Rng) error {
 	base := drawBase(r)
 	thorough := c.Tier == "thorough"
-	m, names, gens := smallWorld(r, base, map[bool]int{false: 2, true: 4}[thorough], map[bool]int{false: 4, true: 8}[thorough])
+	singleCPU := i%3 == 1
+	minPkgs := 1
+	if singleCPU {
+		minPkgs = 2 // several packages to execute: what a fan-out over packages needs to go wrong
+	}
+	m, names, gens := smallWorld(r, base, minPkgs, map[bool]int{false: 2, true: 4}[thorough], map[bool]int{false: 4, true: 8}[thorough])
 	real := i%5 == 4
 	if real {
 		// crash consistency of the files of the real runtimedoc/deepcopy/defaulter generators
@@ -120,6 +126,12 @@ func SimC02(c *CheckCtx, i int, r *Rng) error {
 	victim := mkRun(true)
 	if r.P(0.2) {
 		victim.Args.Force = true
+	}
+	if singleCPU {
+		victim.Args.Force = true
+		// one CPU: if gengo (or a generator) ever runs things concurrently, the scheduling is then as
+		// sequential and repeatable as the Go runtime gets, and failures during dispatch stay visible
+		victim.GoMaxProcs = 1
 	}
 
 	// 1. record the fault-free victim run
@@ -215,6 +227,17 @@ func SimC02(c *CheckCtx, i int, r *Rng) error {
 		points = append(points, failurePoint{name: "kill@load:" + f, how: "kill-before-save",
 			fault: proto.Fault{ExecSeq: -1, Kind: "os.open", Path: f, Phase: "load", Nth: r.Intn(2), Do: "kill"}})
 	}
+	// under a time budget not every point may get its turn: the generator-level points stay in front,
+	// the others (kills, torn writes, cancellations, I/O errors, load kills) are mixed
+	nGen := 0
+	for nGen < len(points) && !strings.HasPrefix(points[nGen].name, "kill@") {
+		nGen++
+	}
+	rest := points[nGen:]
+	for k := len(rest) - 1; k > 0; k-- {
+		j := r.Intn(k + 1)
+		rest[k], rest[j] = rest[j], rest[k]
+	}
 	c.Env.Stats.Add("failure-points-enumerated", int64(len(points)))
 
 	// 3. inject: batches of failure points share one setup and one never-failed reference
@@ -229,6 +252,10 @@ func SimC02(c *CheckCtx, i int, r *Rng) error {
 		for _, fp := range points[lo:hi] {
 			v := *victim
 			v.Faults = []proto.Fault{fp.fault}
+			if strings.HasPrefix(fp.name, "gen-error@") || strings.HasPrefix(fp.name, "unparseable@") || strings.HasPrefix(fp.name, "ioerr@") {
+				// half of the callers retry Execute on the same executor after a failure (the fault is gone by then)
+				v.RetrySameExecutor = r.P(0.5)
+			}
 			sc.Variants = append(sc.Variants, Variant{Name: fp.name, Ops: []Op{{Kind: "run", Run: &v, How: fp.how}, {Kind: "converge", K: 4, How: "recover"}}})
 			kind := strings.SplitN(fp.name, "@", 2)[0]
 			c.Env.Stats.Add("points/"+kind, 1)
@@ -344,6 +371,24 @@ func SimC01(c *CheckCtx, i int, r *Rng) error {
 			writes[e.Path] = append(writes[e.Path], e)
 		case "os.remove", "os.rename", "os.close", "os.sync":
 			points = append(points, fp{e.Kind[3:] + ":" + e.Path, proto.Fault{ExecSeq: -1, Kind: e.Kind, Path: e.Path, Phase: "exec", Nth: e.Nth, Do: "errno:" + Pick(r, []string{"EACCES", "EIO", "ENOSPC"})}})
+		}
+	}
+	// the caller's context is cancelled at a generator callback: whatever gengo does about it, a nil
+	// return still promises files that hold everything that was rendered
+	nGenEv := 0
+	for _, e := range evs {
+		if e.Kind == "gen" || e.Kind == "alias" || e.Kind == "defer" {
+			nGenEv++
+		}
+	}
+	k := 0
+	for _, e := range evs {
+		if e.Kind != "gen" && e.Kind != "alias" && e.Kind != "defer" {
+			continue
+		}
+		k++
+		if k == nGenEv || k == 1 || r.P(0.15) { // the last callback of the run in any case
+			points = append(points, fp{fmt.Sprintf("cancel@%d:%s:%s.%s", e.Exec, e.Kind, e.Pkg, e.Type), proto.Fault{ExecSeq: e.Exec, Do: "cancel"}})
 		}
 	}
 	for _, path := range sortedKeys(writes) { // (never iterate a map where the order feeds the PRNG)
